@@ -253,6 +253,15 @@ func importData(peers []*Peer, table *Table, rows ResultSet, columns []string, l
 		flags := NoFlags
 		flags.Load(con.Flags)
 		atomic.StoreUint32(&peer.flags, uint32(flags))
+
+		// federated sub peers take their state from what the remote site reported, restore that as well
+		if peer.HasFlag(LMDSub) {
+			subStatus := map[string]interface{}{
+				"status":     rows[0][colIndex["status"]],
+				"last_error": rows[0][colIndex["last_error"]],
+			}
+			peer.subPeerStatus.Store(&subStatus)
+		}
 	}
 	if table.virtual != nil {
 		return peers, nil
